@@ -102,6 +102,7 @@ func zzH_C02r() {
 		vAssert(vBlocked() == 0, "no-goroutine-stuck")
 		for _, c := range cs {
 			if c != nil {
+				vAssertOn(len(c.Done) >= 1, "outstanding-call-completes", c)
 				vAssertOn(len(c.Done) == 1, "exactly-once", c)
 				vAssert(c.Error != nil, "outstanding-call-fails")
 			}
